@@ -1150,7 +1150,7 @@ func x05Record(t *testing.T) {
 	r := vRand()
 	n := 700
 	if !vQuick() {
-		n = 6000
+		n = 4000
 	}
 	store := map[string]map[string]bool{} // URL (with query) -> validators the client stored
 	remember := func(q x05Q, o x05Obs) string {
@@ -1173,6 +1173,15 @@ func x05Record(t *testing.T) {
 			"sent": M{"url": u, "accept": x05Accept(q, salt), "inm": "", "ims": ""}})
 	}
 	for it := 0; it < n; it++ {
+		if it > 0 && it%800 == 0 { // a new session keeps the validated state small
+			for nm := range e.names {
+				e.publish(nm, 1)
+			}
+			for k := range store {
+				delete(store, k)
+			}
+			vEmit(M{"ev": "Reset"})
+		}
 		if r.Intn(25) == 0 {
 			name := x05Pick(r, "ttl", "nottl", "lm")
 			e.publish(name, 3-e.pub[name])
